@@ -131,7 +131,14 @@ thorough C15 tier), both corrected against grpc-go's behaviour; (19) a repair
 can mask a seeded change's symptom without removing it (after D23 a
 continuation overrun that is followed by a half-close is failed with the right
 code for the wrong reason): deviations are now also run *without* the frames
-that would come to the endpoint's rescue.
+that would come to the endpoint's rescue; (20) the corpus regression at a
+seed other than the one a change was first tried against is what separates a
+catch from a lucky catch: at seed 2 two changes (C07-f, C08-e) went unreported
+because their original catch depended on goroutine scheduling and on which
+cases the quick tier samples - both got a deterministic workload (a cancel
+that takes effect on the receive loop's own goroutine; a slowed-down
+new_stream write of an abandoned call) - and one (C04-d) turned out to have
+been overtaken by a later fix.
 '''
 open(p, "w").write(s)
 print(summary, "total missed", missed, "of", len(ids))
